@@ -131,7 +131,7 @@ pub fn sb_event(spends: &[SpendIn], flag_names: &[String], max: u64, consts: &Co
     .unwrap_or_else(|p| json!({"ok": false, "errname": format!("PANIC: {p}")}));
     json!({"k": "sb", "src": src, "flags": flag_names, "max": bignat_u64(max), "cpb": bignat_u64(consts.c.cost_per_byte), "consts": consts.to_json(),
         "spends": Value::Array(spends.iter().map(|s| json!({"parent": jbytes(&s.parent), "ph": jbytes(&s.ph), "amt": bignat_u64(s.amount),
-            "puzzle": s.puzzle.to_json(), "solution": s.solution.to_json(), "plen": ser_plain(&s.puzzle).len(), "slen": ser_plain(&s.solution).len()})).collect()),
+            "puzzle": s.puzzle.to_jsonf(), "solution": s.solution.to_jsonf(), "plen": ser_plain(&s.puzzle).len(), "slen": ser_plain(&s.solution).len()})).collect()),
         "runs": runs, "vk": Value::Array(vk.iter().filter(|k| key_valid(k)).map(|k| jbytes(k)).collect()),
         "direct": d, "calc_len": calc_len, "plain": plain, "backrefs": backrefs, "cb": cbj, "ib": ibj, "declared": bignat_u64(declared), "additions": adds})
 }
